@@ -407,6 +407,10 @@ class Machine:
             return src > key["dask_mask"]["thr"]
         if isinstance(key, dict) and "np_mask" in key:
             return np.array(key["np_mask"], dtype=bool)
+        if isinstance(key, dict) and "aux_mask" in key:
+            return self.pool[key["aux_mask"]]  # a live boolean dask collection of the pool, by reference
+        if isinstance(key, list) and any(isinstance(k, dict) and "aux" in k for k in key):
+            return tuple(self.pool[k["aux"]] if isinstance(k, dict) and "aux" in k else G.from_json_index([k])[0] for k in key)
         return G.from_json_index(key)
 
     def resolve_value(self, v, x, key):
@@ -417,6 +421,8 @@ class Machine:
                 return x[key] * v["self_expr"]
             if "var" in v:
                 return self.pool[v["var"]]
+            if "aux" in v:
+                return self.pool[v["aux"]]
         return v
 
     def log_event(self, ev, extra=None):
